@@ -190,7 +190,8 @@ class InputProp:
                 del again[:]
                 results += p.map(cur, on_result=count_hangs,
                                  should_stop=lambda: (nh[0] + len(p.events) >= 12 or
-                                                      (agg["sig_counts"] and time.time() - t0 > self.failfast_s.get(tier, 900.0))),
+                                                      (any(verdict._match_known(sg) is None for sg in agg["sig_counts"])
+                                                       and time.time() - t0 > self.failfast_s.get(tier, 900.0))),
                                  deadline=t0 + self.budget_s.get(tier, 5400.0))
                 if p.deadline_hit:
                     break
